@@ -24,7 +24,20 @@ def scenarios(rng, n):
     import check_ops
     out = []
     for i in range(n):
-        shape = i % 5
+        shape = i % 6
+        if shape == 5:
+            # map_sink_ over a dynamic list: one child per index, children hold wake-ups at different times and elements
+            # of other indexes tick in between
+            horizon = rng.choice([7, 9])
+            ops = {}
+            for idx in range(rng.randint(2, 4)):
+                for t in sorted(rng.sample(range(1, horizon), rng.randint(1, 3))):
+                    ops.setdefault(t, []).append("%d=%d" % (idx, rng.choice([1, 2, 3, 5])))
+            script = ";".join("%d:%s" % (t, ",".join(v)) for t, v in sorted(ops.items()))
+            out.append("\n".join(["scn stm%d" % i, "opt start=1 end=%d" % (horizon + 1), "graph g0 nin=1",
+                                  "n 10 %s d=%d in=a0" % (rng.choice(["echo", "delay"]), rng.randint(1, 3)), "n 11 rec in=10", "endgraph",
+                                  "graph root", "n 1 dynlsrc script=" + script, "n 2 tmap g=0 in=1", "endgraph", "run"]))
+            continue
         if shape in (0, 1):
             p = P.random_program(rng, i + 1, max_nodes=7, horizon=7, kinds=KINDS)
             gs = P.candidate_groups(p, max_ext=3)
